@@ -173,6 +173,10 @@ def run(tier):
         if i % 11 == 5 and W >= 30:
             # a double-width character in the number formats (FULLWIDTH VERTICAL LINE): two columns of gutter each
             extra += ["--line-numbers-left-format", "{nm:>2}\uff5c", "--line-numbers-right-format", ":{np:>2}\uff5c"]
+        if i % 33 == 11:
+            # lines beyond the default --max-line-length, with unlimited wrapping: nothing may be cut (the input limit is
+            # switched off there)
+            W, limit, maxlen, extra = r2.choice([120, 161]), -1, 3300, []
         jobs.append((i, W, limit, maxlen, extra))
 
     def one(job):
